@@ -21,6 +21,7 @@ RULE = (
     "vs sqrt(diag inv H_FD), trans_error_matrix vs diag(y') V diag(y').  non-trivial = both operands uncertain / >=3 free "
     "parameters; distinct = operator+operands / card key+quantity."
 )
+RULE += '  Also: rank-2 tensors and nested structures through params_trans; VarsManager.minimize / minimize_error on quadratic NLLs with bounds; array-valued numbers through cal_err (inputs unchanged).'
 ASSUMPTIONS = [
     "first-order propagation only (the property's claim); operands kept away from singular points (|x|>0.05 for log, / and **; positive bases)",
     "reference Hessian by central differences of the library gradient (h=1e-4): tolerance 2e-3 relative on errors; FD Jacobians 1e-5",
